@@ -154,6 +154,8 @@ def two_site(key, kind="herm", d=2, sym=False):
 
 GEN_GRAPHS = {
     "path3": ((0, 1, 2), ((0, 1), (1, 2))),
+    "path5": ((0, 1, 2, 3, 4), ((0, 1), (1, 2), (2, 3), (3, 4))),
+    "ring5": ((0, 1, 2, 3, 4), ((0, 1), (1, 2), (2, 3), (3, 4), (4, 0))),
     "tri": ((0, 1, 2), ((0, 1), (1, 2), (2, 0))),
     "star4": ((0, 1, 2, 3), ((0, 1), (0, 2), (0, 3))),
     "square": ((0, 1, 2, 3), ((0, 1), (1, 2), (2, 3), (3, 0))),
@@ -457,7 +459,7 @@ def ham_cells(thorough):
         for h2, h1 in itertools.product(h2_def, h1s):
             for kind in (kinds if thorough else ["herm", "generic"]):
                 cells.append({"geom": g, "h2": h2, "h1": h1, "kind": kind})
-    for name in GEN_GRAPHS:
+    for name in ("path3", "tri", "star4", "square", "tri-str", "paw-tup", "ring5"):
         for h2, h1 in itertools.product(h2_gen, ["none", "full", "part", "revorder"]):
             for kind in kinds:
                 cells.append({"geom": ("gen", name), "h2": h2, "h1": h1, "kind": kind})
@@ -1431,6 +1433,33 @@ def conv_cells(thorough):
 
 GEN_CLASSES = ("TEBDGen", "SimpleUpdateGen", "TEBD2D", "SimpleUpdate")
 
+NAMED_ORDERINGS = {
+    # orderings with three or more layers of commuting gates, or no grouping
+    # at all ('staircase': every gate overlaps its predecessor)
+    ("path5", "stair"): ((0, 1), (1, 2), (2, 3), (3, 4)),
+    ("path5", "stair-rev"): ((3, 4), (2, 3), (1, 2), (0, 1)),
+    ("path5", "evenodd"): ((0, 1), (2, 3), (1, 2), (3, 4)),
+    ("path5", "inout"): ((0, 1), (3, 4), (1, 2), (2, 3)),
+    ("ring5", "stair"): ((0, 1), (1, 2), (2, 3), (3, 4), (0, 4)),
+    ("ring5", "stair-rev"): ((0, 4), (3, 4), (2, 3), (1, 2), (0, 1)),
+    ("ring5", "3color"): ((0, 1), (2, 3), (0, 4), (1, 2), (3, 4)),
+    ("ring5", "3color-b"): ((1, 2), (3, 4), (0, 1), (2, 3), (0, 4)),
+}
+
+
+def r_layers(ordering):
+    """the documented grouping of a flat ordering into layers of mutually
+    non-overlapping gates: a gate touching a site of the current layer starts
+    a new one"""
+    layers, cover = [], set()
+    for where in ordering:
+        if not layers or any(c in cover for c in where):
+            layers.append([])
+            cover = set()
+        layers[-1].append(tuple(where))
+        cover.update(where)
+    return layers
+
 
 def _gen_setup(cell):
     import quimb.tensor as qtn
@@ -1443,8 +1472,13 @@ def _gen_setup(cell):
         Lx, Ly = geom[1]
         psi0 = qtn.PEPS.rand(Lx, Ly, 2, seed=11, dtype="complex128")
     else:
-        psi0 = qtn.TN_from_edges_rand([tuple(sorted(b)) for b in bonds], D=2, phys_dim=2, seed=11, dtype="complex128")
+        psi0 = qtn.TN_from_edges_rand([tuple(sorted(b)) for b in bonds], D=int(cell.get("D0", 2)), phys_dim=2, seed=11, dtype="complex128")
     return ham, psi0, sites, (H2, H1)
+
+
+def geom_name(cell):
+    g = tuple(cell["geom"])
+    return g[1] if g[0] == "gen" else g[0]
 
 
 def gen_cell(cell, common):
@@ -1474,6 +1508,8 @@ def gen_cell(cell, common):
         perm = list(itertools.permutations(range(len(keys))))[okind[1]]
         fixed = tuple(keys[i] for i in perm)
         oarg = lambda: fixed
+    elif okind[0] == "named":
+        oarg = tuple(NAMED_ORDERINGS[(geom_name(cell), okind[1])])
     elif okind[0] == "revpair":
         oarg = tuple((k[1], k[0]) if i == okind[1] else k for i, k in enumerate(keys))
         rev = r_asym(terms[keys[okind[1]]]) > 0.05
@@ -1483,6 +1519,25 @@ def gen_cell(cell, common):
     tau = 0.1
     kw = dict(tau=tau, D=64, ordering=oarg, second_order_reflect=reflect, progbar=False, compute_energy_final=False, imag=True)
     kw["cutoff"] = 1e-12 if simple else 0.0
+    update = cell.get("update", "sequential")
+    equil = cell.get("equil", None)
+    if simple:
+        kw["update"] = update
+        if equil is not None:
+            kw["equilibrate_every"] = equil
+    # root cause facts (from the cell): in 'parallel' mode the gates of one
+    # layer are computed from the same state and must be accepted before the
+    # next, overlapping layer; with equilibration every N sweeps nothing
+    # accepts them between layers
+    facts = {}
+    if simple and update == "parallel" and (equil == "sweep" or (isinstance(equil, int) and equil)):
+        facts["parallel_equilibrate_sweeps"] = True
+
+    def sweep_problem(msg, check):
+        if facts.get("parallel_equilibrate_sweeps"):
+            return core.problem(msg, root="parallel-layers-not-accepted", check=check, **base)
+        return core.problem(msg, root="gen-sweep", check=check, update=update, reversed_pair=bool(rev), **base)
+
     te = cls(psi0, ham, **kw)
     used = te.ordering() if callable(te.ordering) else te.ordering
     used = [tuple(p) for p in used]
@@ -1495,14 +1550,22 @@ def gen_cell(cell, common):
         taufn = lambda where: 0.05 + 0.01 * sorted(terms).index(tuple(sorted(where)))
     else:
         taufn = lambda where: tau
-    if cell["via"] == "sweep":
-        for _ in range(nsweeps):
-            te.sweep(taufn if tauk == "callable" else tau)
-    else:
-        te.evolve(nsweeps, tau=tau)
-        if te.n != nsweeps:
-            return table.bad(core.problem("evolve(%d) reports n=%r" % (nsweeps, te.n), root="gen-count", check="count", **base))
-    got = np.asarray(te.state.to_dense()).reshape(-1)
+    try:
+        if cell["via"] == "sweep":
+            for _ in range(nsweeps):
+                te.sweep(taufn if tauk == "callable" else tau)
+        else:
+            te.evolve(nsweeps, tau=tau)
+        got = np.asarray(te.state.to_dense()).reshape(-1)
+    except Exception as ex:  # every enumerated configuration is documented input
+        return table.bad(sweep_problem("%s: %d sweep(s) raised %s: %s (%r)" % (cell["cls"], nsweeps, type(ex).__name__, str(ex)[:120], {k: cell[k] for k in cell if k != "kind"}), "exception"))
+    if cell["via"] != "sweep" and te.n != nsweeps:
+        return table.bad(core.problem("evolve(%d) reports n=%r" % (nsweeps, te.n), root="gen-count", check="count", **base))
+    # the layers the documented rule makes of the ordering used: gates inside
+    # one layer do not overlap (so their order cannot matter - the dense
+    # product below is the reference for 'sequential' and 'parallel' alike)
+    if any(len({c for w_ in layer for c in w_}) != 2 * len(layer) for layer in r_layers(used)):
+        return table.bad(core.problem("harness: layer rule produced overlapping gates", root="harness", check="layers", **base))
     seqw = used + used[::-1] if reflect else used
     fac = 2.0 if reflect else 1.0
     v = v0
@@ -1515,14 +1578,18 @@ def gen_cell(cell, common):
         v = r_apply_gates(v, gates, sites)
     if simple:
         e = _maxdiff(_unit(got), _unit(v))
-        tol = 1e-8
+        # gauge equilibration divides by the bond gauges (regularised by
+        # gauge_smudge = 1e-6): on bonds that carry numerically zero singular
+        # values its rounding error is ~1e-6 (measured 4e-6 on the 2x2 PEPS),
+        # logic errors are O(0.1)
+        tol = 1e-8 if equil is None else 1e-4
     else:
         e = _maxdiff(got, v) / max(1.0, float(np.abs(v).max()))
         tol = 1e-9
     if e > tol:
-        root = "pair-orientation" if rev else "gen-sweep"
-        return table.bad(core.problem("%s: state after %d sweep(s) differs from the dense product of exp(-tau h) in the ordering used by %.3g (%r)" % (cell["cls"], nsweeps, e, {k: cell[k] for k in cell if k != "kind"}), root=root, check="state", **base))
-    return table.ok(key=core.sig_key(cell), nontrivial=len(keys) >= 2, outcome="%s:%s:refl=%s" % (cell["cls"], cell["via"], reflect))
+        return table.bad(sweep_problem("%s: state after %d sweep(s) differs from the dense product of exp(-tau h) in the ordering used by %.3g (%r)" % (cell["cls"], nsweeps, e, {k: cell[k] for k in cell if k != "kind"}), "state"))
+    nl = len(r_layers(seqw))
+    return table.ok(key=core.sig_key(cell), nontrivial=len(keys) >= 2, outcome="%s:%s:%s:layers%s" % (cell["cls"], cell["via"], update if simple else "-", ">=3" if nl >= 3 else "<3"))
 
 
 def gen_cells(thorough):
@@ -1539,8 +1606,25 @@ def gen_cells(thorough):
                     if o == "sort" or (thorough and o[0] == "perm"):
                         vias += [("sweep", 2, "const"), ("evolve", 2, "const"), ("sweep", 1, "callable")]
                     for via, ns, tk in vias:
-                        cells.append({"cls": cls, "geom": g, "ordering": o, "reflect": reflect, "via": via, "nsweeps": ns, "tau": tk})
+                        for update in (("sequential", "parallel") if cls == "SimpleUpdateGen" else ("sequential",)):
+                            cells.append({"cls": cls, "geom": g, "ordering": o, "reflect": reflect, "via": via, "nsweeps": ns, "tau": tk, "update": update})
         cells.append({"cls": cls, "geom": ("gen", "path3"), "real_time": True})
+        # three and more layers / ungrouped orderings, saturated bonds, every
+        # update mode x equilibration schedule
+        for gname, D0 in (("path5", 4), ("ring5", 2)):
+            names = ["sort"] + [("named", n) for (gg, n) in NAMED_ORDERINGS if gg == gname]
+            for o in names:
+                for reflect in (False, True):
+                    if cls == "TEBDGen":
+                        combos = [("sequential", None)]
+                    else:
+                        combos = [(u, q) for u in ("sequential", "parallel") for q in (None, 1, 2, "sweep", "layer", "gate")]
+                    for update, equil in combos:
+                        vias = [("evolve", 2, "const")] + ([("sweep", 1, "const")] if equil is None else [])
+                        if thorough and equil is None:
+                            vias += [("evolve", 3, "const"), ("sweep", 1, "callable")]
+                        for via, ns, tk in vias:
+                            cells.append({"cls": cls, "geom": ("gen", gname), "D0": D0, "ordering": o, "reflect": reflect, "via": via, "nsweeps": ns, "tau": tk, "update": update, "equil": equil})
     for cls in ("TEBD2D", "SimpleUpdate"):
         for g in [("2d", (2, 2), False)] + ([("2d", (2, 3), False)] if thorough else []):
             sites, bonds = geometry(g)
@@ -1549,7 +1633,11 @@ def gen_cells(thorough):
             for o in orderings:
                 for reflect in (False, True):
                     for via, ns, tk in [("sweep", 1, "const"), ("evolve", 2, "const")]:
-                        cells.append({"cls": cls, "geom": g, "ordering": o, "reflect": reflect, "via": via, "nsweeps": ns, "tau": tk})
+                        combos = [("sequential", None)]
+                        if cls == "SimpleUpdate":
+                            combos += [("parallel", None)] + ([("parallel", 1), ("parallel", "layer"), ("sequential", 1)] if via == "evolve" else [])
+                        for update, equil in combos:
+                            cells.append({"cls": cls, "geom": g, "ordering": o, "reflect": reflect, "via": via, "nsweeps": ns, "tau": tk, "update": update, "equil": equil})
         cells.append({"cls": cls, "geom": ("2d", (2, 2), False), "real_time": True})
     return cells
 
